@@ -211,3 +211,129 @@ func execOpenFail(c *ctx, line string) (obs string) {
 	}
 	return "ok"
 }
+
+// initcrash (C03, implementation only): the directory states a crash during the
+// very first Open can leave behind on the real file system -- nothing, an empty /
+// partial / complete wal-meta.db.tmp, the renamed wal-meta.db (with or without
+// a left-over tmp), each optionally followed by further crashed first Opens --
+// must all open, accept an append, and present it after a clean reopen.
+func init() { streams["initcrash"] = &stream{gen: genInitCrash, exec: execInitCrash} }
+
+func genInitCrash(c *ctx, emit func(string)) {
+	r := rand.New(rand.NewSource(c.seed))
+	kinds := []string{"tmp-empty", "tmp-partial", "tmp-complete", "tmp-garbage", "final-and-tmp", "tmp-complete-twice"}
+	for i := 0; i < c.n; i++ {
+		emit(fmt.Sprintf("#ic %s %d", kinds[i%len(kinds)], r.Int63()))
+	}
+}
+
+// a bolt file as metadb's init leaves it right before the rename
+func completeTmp(path string) error {
+	db, err := bbolt.Open(path, 0644, nil)
+	if err != nil {
+		return err
+	}
+	err = db.Update(func(tx *bbolt.Tx) error {
+		if _, err := tx.CreateBucket([]byte("wal-meta")); err != nil {
+			return err
+		}
+		_, err := tx.CreateBucket([]byte("stable"))
+		return err
+	})
+	if cerr := db.Close(); err == nil {
+		err = cerr
+	}
+	return err
+}
+
+func execInitCrash(c *ctx, line string) (obs string) {
+	defer func() {
+		if e := recover(); e != nil {
+			c.witness("C03", "open-panic", fmt.Sprintf("panic: %v", e), line)
+			obs = "panic"
+		}
+	}()
+	var kind string
+	var seed int64
+	fmt.Sscanf(line, "#ic %s %d", &kind, &seed)
+	r := rand.New(rand.NewSource(seed))
+	dir, err := os.MkdirTemp(c.work, "ic")
+	if err != nil {
+		return "badinput"
+	}
+	defer os.RemoveAll(dir)
+	tmp := filepath.Join(dir, "wal-meta.db.tmp")
+	switch kind {
+	case "tmp-empty":
+		os.WriteFile(tmp, nil, 0644)
+	case "tmp-partial", "tmp-garbage":
+		if completeTmp(tmp) != nil {
+			return "setup-failed"
+		}
+		b, _ := os.ReadFile(tmp)
+		if kind == "tmp-partial" {
+			os.WriteFile(tmp, b[:r.Intn(len(b))], 0644)
+		} else {
+			for k := 0; k < 1+r.Intn(64); k++ {
+				b[r.Intn(len(b))] ^= byte(1 + r.Intn(255))
+			}
+			os.WriteFile(tmp, b, 0644)
+		}
+	case "tmp-complete", "tmp-complete-twice":
+		if completeTmp(tmp) != nil {
+			return "setup-failed"
+		}
+	case "final-and-tmp":
+		// a first Open that completed, then a stray tmp file (cannot arise from the code's own
+		// order, but is a state `Open` must tolerate: it only ever deletes the tmp name)
+		w, err := wal.Open(dir, wal.WithSegmentSize(512), wal.WithLogger(hclog.NewNullLogger()))
+		if err != nil {
+			return "setup-failed"
+		}
+		w.Close()
+		os.WriteFile(tmp, []byte("left over"), 0644)
+	}
+	c.stat("ic_" + kind)
+	rounds := 1
+	if kind == "tmp-complete-twice" {
+		rounds = 2
+	}
+	for k := 0; k < rounds; k++ {
+		w, err, to := openWithTimeout(dir, 10*time.Second)
+		if to {
+			c.witness("C03", "open-hangs-after-init-crash", "Open does not return on the directory a crashed first Open leaves ("+kind+")", line)
+			return "hang"
+		}
+		if err != nil {
+			c.witness("C03", "open-fails-after-init-crash", fmt.Sprintf("Open fails on the directory a crashed first Open leaves (%s): %v", kind, err), line)
+			return "openerr"
+		}
+		idx := uint64(k + 1)
+		if err := w.StoreLogs([]*raft.Log{{Index: idx, Term: 1, Data: []byte("after init crash")}}); err != nil {
+			w.Close()
+			c.witness("C03", "append-refused-after-recovery", fmt.Sprintf("StoreLogs refused after recovering from an init crash (%s): %v", kind, err), line)
+			return "storeerr"
+		}
+		w.Close()
+		if k+1 < rounds {
+			// crash of another "first" Open: a complete tmp appears again next to the live DB
+			if completeTmp(tmp) != nil {
+				return "setup-failed"
+			}
+		}
+	}
+	w, err, to := openWithTimeout(dir, 10*time.Second)
+	if to || err != nil {
+		c.witness("C03", "open-fails-after-init-crash", fmt.Sprintf("clean reopen fails after an init crash (%s): %v", kind, err), line)
+		return "reopenerr"
+	}
+	defer w.Close()
+	var lg raft.Log
+	for k := 1; k <= rounds; k++ {
+		if err := w.GetLog(uint64(k), &lg); err != nil || string(lg.Data) != "after init crash" {
+			c.witness("C01", "acked-entry-lost", fmt.Sprintf("entry %d acknowledged after an init crash (%s) is not returned after reopen: %v", k, kind, err), line)
+			return "lost"
+		}
+	}
+	return "ok"
+}
